@@ -182,6 +182,66 @@ def check(prog, mode, use, text):
     return None, info
 
 
+def _paths(n, path=()):
+    """Paths to every IR node (dicts with an "op")."""
+    if isinstance(n, dict):
+        if "op" in n and path:
+            yield path
+        for k, v in n.items():
+            yield from _paths(v, path + (k,))
+    elif isinstance(n, list):
+        for i, v in enumerate(n):
+            yield from _paths(v, path + (i,))
+
+
+def _get(n, path):
+    for k in path:
+        n = n[k]
+    return n
+
+
+def _replaced(n, path, new):
+    import copy
+    n = copy.deepcopy(n)
+    parent = _get(n, path[:-1])
+    parent[path[-1]] = new
+    return n
+
+
+def shrink(prog, mode, use, still_bad, max_checks=80):
+    """Greedy witness shrinking (DESIGN 3): replace sub-forms by a literal, drop top-level forms,
+    keep a change while the case still violates. Bounded number of re-checks."""
+    checks = 0
+    changed = True
+    while changed and checks < max_checks:
+        changed = False
+        for i in range(len(prog["forms"]) - 1, -1, -1):
+            cand = dict(prog, forms=prog["forms"][:i] + prog["forms"][i + 1:])
+            checks += 1
+            if still_bad(cand):
+                prog, changed = cand, True
+            if checks >= max_checks:
+                return prog
+        paths = sorted(_paths(prog["last"], ("last",)), key=len) + sorted(_paths(prog["forms"], ("forms",)), key=len)
+        for path in paths:
+            try:
+                node = _get(prog, path)
+            except (KeyError, IndexError, TypeError):
+                continue
+            if not isinstance(node, dict) or node.get("op") == "lit":
+                continue
+            if len(path) >= 2 and path[-2] in ("ps", "bs", "hs", "ms", "cl", "defs") and isinstance(path[-1], int) and path[-1] == 0:
+                continue        # names, not nodes
+            cand = _replaced(prog, path, {"op": "lit", "v": 0})
+            checks += 1
+            if still_bad(cand):
+                prog, changed = cand, True
+                break
+            if checks >= max_checks:
+                return prog
+    return prog
+
+
 def run_case(case):
     prog, mode, use, text = case["prog"], case["mode"], case["use"], case["text"]
     why, info = check(prog, mode, use, text)
@@ -200,6 +260,21 @@ def run_case(case):
            "events": info.get("events", 0), "sample": {"text": text, "mode": mode}}
     if why is not None:
         res["why"] = why
+        try:
+            def still_bad(p):
+                try:
+                    w, _ = check(p, mode, use, G.render_program(p, mode, use))
+                except Exception:
+                    return False
+                return w not in (None, "SKIP")
+            small = shrink(prog, mode, use, still_bad)
+            st = G.render_program(small, mode, use)
+            if len(st) < len(text):
+                w2, _ = check(small, mode, use, st)
+                res["shrunk"] = {"text": st, "why": str(w2)[:400]}
+                res["why"] = why + " || shrunk witness: " + st.replace("\n", " ") + " => " + str(w2)[:300]
+        except Exception:
+            pass
         # attribution: legacy `if*` special case in compile_if
         if _feature_ifstar_else(prog):
             p2 = _rename_ifstar(prog)
